@@ -1143,6 +1143,9 @@ M('C10', 'calc_H_MPO_from_bond overwrites the right on-site part (round-4 seed a
 M('C10', 'add_local_term: h.c. term converted with the index reduced modulo N (round-4 seed b)', MODEL,
   "self.lat.mps2lat_idx(i)) for op, i in reversed(term)]", "self.lat.mps2lat_idx(i % N)) for op, i in reversed(term)]", 'INDEX-wrap')
 
+M('C11', 'expectation_value_power stops after the MPO unit cell (round-4 seed b)', MPO,
+  "            if i >= L - 1:\n                RP = env.init_RP(i)", "            if i >= self.L - 1:\n                RP = env.init_RP(i)", 'RANGE-period-mixed')
+
 # ---------------------------------------------------------------- C16 / C19
 M('C16', 'GMRES restart: relative residual norm used for normalisation (round-3 seed b)', KRY,
   """        self.total_error.append([npc.norm(self.rs[-1]) / self.b_norm])
